@@ -155,7 +155,8 @@ class MarkovChain(ABC):
             # elements at random in order not to introduce bias.
             n_trim = probs.size - samples
             if n_trim > 0:
-                subsample = permutation(probs.size)[n_trim:].sort()
+                subsample = permutation(probs.size)[n_trim:]
+                subsample.sort()
                 sample = sample[subsample, :]
                 probs = probs[subsample]
 
